@@ -178,7 +178,9 @@ static void part_concrete(Ctx& ctx, uint64_t n) {
 // module level
 static void part_module(Ctx& ctx, uint64_t N) {
   MODULE* mod = get_module(N, NTT120, CFG_NATIVE);
-  static const int64_t A0[] = {0, 1, -1, INT64_C(1) << 32, -(INT64_C(1) << 32), INT64_C(1) << 62, -(INT64_C(1) << 62), INT64_MIN, INT64_MAX, (int64_t)Q1, -(int64_t)Q2, (int64_t)Q3 * 5, -(int64_t)Q4 * 7};
+  static const int64_t A0[] = {0, 1, -1, INT64_C(1) << 32, -(INT64_C(1) << 32), INT64_C(1) << 62, -(INT64_C(1) << 62), INT64_MIN, INT64_MAX, (int64_t)Q1, -(int64_t)Q2, (int64_t)Q3 * 5, -(int64_t)Q4 * 7,
+                               // values with the same small residue modulo two of the primes (t * Qi * Qj + r): a lift that looks at a subset of the residues goes wrong here
+                               (int64_t)Q1 * (int64_t)Q4, -5 * ((int64_t)Q1 * (int64_t)Q4) + 42, (int64_t)Q2 * (int64_t)Q3 + 1, -((int64_t)Q1 * (int64_t)Q2) + 7, 3 * ((int64_t)Q3 * (int64_t)Q4), (int64_t)Q2 * (int64_t)Q4 + (int64_t)Q2 - 1, -((int64_t)Q1 * (int64_t)Q3)};
   const int na = sizeof(A0) / sizeof(A0[0]);
   Rng rng(ctx.args.seed + N);
   for (int variant = 0; variant < 2; ++variant)
